@@ -7,7 +7,8 @@ RecursionError cannot take the driver down.  Required outcome:
 
     <schema>.hang                   the call returns or raises within the guard
     <schema>.crash                  the interpreter survives
-    <schema>.internal_error.<Type>  an exception must be a dendropy.utility.error.DataParseError (the library's
+    <schema>.internal_error.<Type>@<function>
+                                    (function = innermost library function on the traceback)  an exception must be a dendropy.utility.error.DataParseError (the library's
                                     parse-error family: tokenizer, Newick, NEXUS, PHYLIP, FASTA errors all derive
                                     from it) or the documented ValueError of a source without data
                                     ("No trees in data source", "No trees available at requested location ...",
@@ -28,8 +29,9 @@ seeded double edits; all strings of <= 3 (quick) / <= 4 (thorough) characters ov
 Newick alphabet, and '#NEXUS' followed by <= 2 / <= 3 tokens of the NEXUS token alphabet,
 short PHYLIP / FASTA strings.  Also nesting depth 3000 (recursion clause).
 
-At most CAP new violations per (monitor, document, edit kind, route) are written out; the
-rest are counted in a note (the verdict is unaffected)."""
+At most CAP new violations per monitor (CAP_KIND per monitor and edit kind, in the fixed
+enumeration order) are written out; the rest are counted in a note (the verdict is
+unaffected)."""
 import io
 import itertools
 import re
@@ -106,6 +108,17 @@ MATRIX = {"DnaMatrix": (dendropy.DnaCharacterMatrix, "dna"), "ProteinMatrix": (d
 
 
 # ----------------------------------------------------------------------------- one read
+def _site(tb):
+    """qualified name of the innermost library function on the traceback (where the internal error arose)"""
+    site = "?"
+    while tb is not None:
+        co = tb.tb_frame.f_code
+        if "/dendropy/" in co.co_filename:
+            site = getattr(co, "co_qualname", co.co_name)
+        tb = tb.tb_next
+    return site
+
+
 def read_one(item):
     """item: dict(schema, text, route, kw) -> dict(outcome=..., detail=...) (JSON-able)"""
     schema, text, route, kw = item["schema"], item["text"], item["route"], dict(item.get("kw") or {})
@@ -131,9 +144,9 @@ def read_one(item):
     except ValueError as e:
         if any(str(e).startswith(m) for m in NO_DATA_MESSAGES):
             return {"outcome": "no_data", "detail": str(e)}
-        return {"outcome": "internal_error", "type": type(e).__name__, "detail": str(e)[:200]}
+        return {"outcome": "internal_error", "type": type(e).__name__, "site": _site(e.__traceback__), "detail": str(e)[:200]}
     except Exception as e:  # RecursionError, AttributeError, ...
-        return {"outcome": "internal_error", "type": type(e).__name__, "detail": str(e)[:200]}
+        return {"outcome": "internal_error", "type": type(e).__name__, "site": _site(e.__traceback__), "detail": str(e)[:200]}
     # product checks
     for k, t in enumerate(trees):
         errs = S.arborescence_errors(t)
@@ -280,7 +293,8 @@ def short_strings(tier):
 
 
 # ----------------------------------------------------------------------------- driver
-CAP = 3
+CAP = 8
+CAP_KIND = 2
 
 
 def t2(ctx):
@@ -341,23 +355,24 @@ def t2(ctx):
             oc = val["outcome"]
             tally[oc] = tally.get(oc, 0) + 1
             if oc == "internal_error":
-                mon, detail = "%s.internal_error.%s" % (it["schema"], val["type"]), "%s: %s" % (val["type"], val["detail"])
+                mon, detail = "%s.internal_error.%s@%s" % (it["schema"], val["type"], val["site"]), "%s: %s" % (val["type"], val["detail"])
             elif oc in ("malformed_tree", "dimensions.rows", "dimensions.cols"):
                 mon, detail = "%s.%s" % (it["schema"], oc), val["detail"]
             elif it["kind"] == "valid" and oc != "ok":
                 mon, detail = "%s.valid_rejected" % it["schema"], "%s %s" % (oc, val["detail"])
         if mon is None:
             continue
-        g = (mon, it["doc"], it["kind"], it["route"])
-        if reported.get(g, 0) >= CAP:
-            capped[g[:1]] = capped.get(g[:1], 0) + 1
+        g = (mon, it["kind"])
+        if reported.get(g, 0) >= CAP_KIND or reported.get(mon, 0) >= CAP:
+            capped[mon] = capped.get(mon, 0) + 1
             continue
         w = dict(key=key, schema=it["schema"], text=it["text"], route=it["route"], kw=it["kw"], doc=it["doc"], mutation=it["mut"])
         if ctx.fail(mon, w, detail="%s via %s.get on %s [%s]: %s" % (it["schema"], it["route"], it["doc"], it["mut"], detail)):
             reported[g] = reported.get(g, 0) + 1
+            reported[mon] = reported.get(mon, 0) + 1
     ctx.note("outcomes: " + ", ".join("%s=%d" % kv for kv in sorted(tally.items())))
     for g, n in sorted(capped.items()):
-        ctx.note("%d further violations of %s not listed (cap %d per monitor/document/edit kind/route)" % (n, g[0], CAP))
+        ctx.note("%d further violations of %s not listed (cap: %d per monitor, %d per monitor and edit kind)" % (n, g, CAP, CAP_KIND))
 
 
 def replay(ctx, rec):
@@ -372,7 +387,7 @@ def replay(ctx, rec):
         return not ob.endswith(".crash")
     oc = val["outcome"]
     if oc == "internal_error":
-        return ob != "%s.internal_error.%s" % (w["schema"], val["type"])
+        return ob != "%s.internal_error.%s@%s" % (w["schema"], val["type"], val["site"])
     if oc in ("malformed_tree", "dimensions.rows", "dimensions.cols"):
         return ob != "%s.%s" % (w["schema"], oc)
     if ob.endswith(".valid_rejected"):
